@@ -267,3 +267,9 @@ def unit_test(case):
         "assert not l2.failed_blocks and len(l1.blocks) == len(l2.blocks)\n"
         "assert w1 == w2\n"
     )
+
+
+def ENV_SHARDS(tier):
+    """The broad, cheap families: run again in a fresh interpreter per environment (engine.run_environments)."""
+    return [s for s in shards('quick') if s[0] == "big"]
+
